@@ -45,6 +45,7 @@ class Live:
         self.n = 0
         self.m = None
         self.path = None
+        self.shared = {}          # index arrays owned by the caller, re-used by every call that removes the same indices
 
     def newpath(self):
         self.n += 1
@@ -65,7 +66,10 @@ class Live:
                 self.m.sort_by_tilt(reset_z_value=op["reset"])
             elif name == "remove":
                 idx = sorted(op["idx"], reverse=bool(variant & 1))
-                self.m.remove_images(np.array(idx) if variant & 2 else idx, kept_only=op["kept_only"])
+                if op.get("shared"):
+                    self.m.remove_images(self.shared_array(op["idx"]), kept_only=op["kept_only"])
+                else:
+                    self.m.remove_images(np.array(idx) if variant & 2 else idx, kept_only=op["kept_only"])
             elif name == "keep":
                 self.m.keep_images(sorted(op["labels"]))
             elif name == "reset":
@@ -74,18 +78,27 @@ class Live:
                 out = self.newpath()
                 self.m.write(out, overwrite=bool(variant & 1), removed=op["removed"])
                 self.path = out
-            elif name == "fn_remove":
-                out = self.newpath()
+            elif name in ("fn_remove", "fn_remove_keep"):
+                out = self.newpath() if name == "fn_remove" else None
                 idx = sorted(op["idx"])
-                self.m = mdoc.remove_images(self.path, np.array(idx) if variant & 1 else idx,
-                                            numbered_from_1=(op["base"] == 1), output_file=out)
-                self.path = out
+                arg = self.shared_array(op["idx"]) if op.get("shared") else (np.array(idx) if variant & 1 else idx)
+                self.m = mdoc.remove_images(self.path, arg, numbered_from_1=(op["base"] == 1), output_file=out)
+                if out is not None:
+                    self.path = out
             elif name == "fn_sort":
                 out = self.newpath()
                 self.m = mdoc.sort_mdoc_by_tilt_angles(self.path, reset_z_value=op["reset"], output_file=out)
                 self.path = out
             else:
                 raise core.MachineryError("unknown mdoc operation %r" % (op,))
+
+    def shared_array(self, idx):
+        """One ndarray object per set of index values: the caller keeps it and hands the very same object to every call
+        (a callee that converts 1-based indices in place ruins the later calls)."""
+        key = tuple(sorted(idx))
+        if key not in self.shared:
+            self.shared[key] = np.array(sorted(idx))
+        return self.shared[key]
 
     def observe(self):
         with open(self.path) as fh:
@@ -126,7 +139,8 @@ def first_diff(got, exp, path=""):
 
 CLAUSE_OF = {"sort": "C17_SortOnlyReorders", "remove": "C17_RemoveOnlyFlags", "write": "C17_MdocRoundTrip",
              "reload": "C17_MdocRoundTrip", "read": "C17_MdocRoundTrip", "fn_remove": "C17_RemoveOnlyFlags",
-             "fn_sort": "C17_SortOnlyReorders", "keep": "C17_RemoveOnlyFlags", "reset": "C17_RemoveOnlyFlags"}
+             "fn_sort": "C17_SortOnlyReorders", "keep": "C17_RemoveOnlyFlags", "reset": "C17_RemoveOnlyFlags",
+             "fn_remove_keep": "C17_RemoveOnlyFlags"}
 
 
 def run_history(ctx, hist, variant, kind):
@@ -261,8 +275,32 @@ def gen_mdoc_case(rng, idx, nmax):
         return [{"tilt": r["tilt"], "lab": k, "rm": False} for k, r in enumerate(rows)]
 
     for _ in range(rng.randint(2, 8)):
-        kind = rng.choice(["sort", "remove", "remove", "write", "write", "reload", "reset", "keep", "fn_remove", "fn_sort"])
+        kind = rng.choice(["sort", "remove", "remove", "write", "write", "reload", "reset", "keep", "fn_remove", "fn_sort",
+                           "burst", "burst"])
         kept = [o for o in obj if not o["rm"]]
+        if kind == "burst":
+            # two or three removing calls that are handed the SAME 1-based index array object: the module-level function
+            # without / with output file (same mdoc again, then the shortened one) and the Mdoc method
+            b = len(disk)
+            size = rng.choice([1, 1, 2])
+            if b <= 3 * size:
+                continue
+            I = sorted(rng.sample(range(1, b - 2 * size + 1), size))
+            for step in rng.choice([["keep", "keep"], ["keep", "out"], ["out", "out"], ["keep", "out", "keep"],
+                                    ["out", "keep", "method"], ["keep", "method"], ["keep", "keep", "out"]]):
+                if step == "method":
+                    ops.append({"name": "remove", "idx": I, "kept_only": True, "shared": True})
+                    pool = [o for o in obj if not o["rm"]]
+                    for q in I:
+                        pool[q]["rm"] = True
+                    continue
+                ops.append({"name": "fn_remove" if step == "out" else "fn_remove_keep", "idx": I, "base": 1, "shared": True})
+                obj = reread(disk)
+                for q in I:
+                    obj[q - 1]["rm"] = True
+                if step == "out":
+                    disk = [dict(o) for o in obj if not o["rm"]]
+            continue
         if kind == "sort":
             ops.append({"name": "sort", "reset": rng.random() < 0.5})
             obj.sort(key=lambda o: o["tilt"])
